@@ -490,6 +490,83 @@ func runWatchJob(c *Ctl, job *Job, idx int, res *RunResult, pre *watchPre) {
 	if !runReturned {
 		c.Count("c20_run_did_not_return_after_close")
 	}
+	// a second watcher served by the same TaskRunner, started after the first one was closed: the
+	// end of one watcher must not take the runner away from the others
+	if wt2 := pre.watcher2; wt2 != nil && runReturned {
+		pre.w2used = true
+		wt2.VerifRebind()
+		events2 := make(chan fsnotify.Event)
+		orig2 := wt2.VerifSetEvents(events2)
+		run2Returned := false
+		prev := c.onEvent
+		c.onEvent = func(ev *Event) {
+			if ev.Kind == "watch2-run-return" {
+				run2Returned = true
+			}
+			prev(ev)
+		}
+		go func() {
+			err := wt2.Run(tr)
+			c.Note("watch2-run-return", "", errString(err))
+		}()
+		before := len(execs)
+		durIdx = 0
+		c.Quiesce()
+		finishRuns(10 * time.Second)
+		if len(execs) != before+1 {
+			c.Violate("C20", "second-watcher-initial-run", "a second watcher started on the same runner after the first watcher was closed must run its task once: %d command executions", len(execs)-before)
+		} else if len(names) > 0 {
+			// one subscribed event for it
+			op := uint32(2)
+			for _, o := range []uint32{2, 1, 4, 8, 16} {
+				if _, sub := subscribed(o); sub {
+					op = o
+					break
+				}
+			}
+			target := names[c.Ch.Choose(len(names), "event-path-2")]
+			if w.Relative {
+				target = relOne(pre.root, target)
+			}
+			before = len(execs)
+			acked := consumed
+			c.LogCtl("fs-event-2", fmt.Sprintf("%d", op), relOne(pre.root, target))
+			fev := fsnotify.Event{Name: target, Op: fsnotify.Op(op)}
+			abandon := make(chan struct{})
+			go func() {
+				select {
+				case events2 <- fev:
+					c.Note("event-consumed", "", "")
+				case <-abandon:
+				}
+			}()
+			for polls := 0; consumed == acked; polls++ {
+				if polls > 15 {
+					c.Violate("C20", "event-not-consumed", "second watcher on the same runner: the event (%s on %s) was not taken from the event channel within %d polls", fsnotify.Op(op), relOne(pre.root, target), polls)
+					close(abandon)
+					break
+				}
+				c.holdBatch = true
+				c.Advance(time.Second)
+				c.holdBatch = false
+			}
+			finishRuns(10 * time.Second)
+			c.Quiesce()
+			name, _ := subscribed(op)
+			if consumed != acked && (len(execs) != before+1 || execs[len(execs)-1].Env["EventName"] != name || execs[len(execs)-1].Env["EventPath"] != target) {
+				c.Violate("C20", "subscribed-event-not-served", "second watcher on the same runner (started after the first was closed): subscribed event %s on %s ran the task %d time(s)", name, relOne(pre.root, target), len(execs)-before)
+			}
+			c.Count("c20_second_watcher_events")
+		}
+		wt2.VerifSetEvents(orig2)
+		go func() {
+			wt2.Close()
+			c.Note("watch2-closed", "", "")
+		}()
+		for i := 0; i < 10 && !run2Returned; i++ {
+			c.Advance(time.Second)
+		}
+	}
 	res.NonTrivial = len(w.History) > 0 && len(want) > 0
 }
 
@@ -511,6 +588,8 @@ type watchPre struct {
 	w        *WatchWorld
 	root     string
 	watcher  *watch.Watcher
+	w2used   bool
+	watcher2 *watch.Watcher // same patterns and events, its own task, served by the same runner later on
 	selected []string
 	err      error
 	stop     chan struct{}
@@ -572,6 +651,19 @@ func prepareWatch(ch *Choices, job *Job, idx int) *watchPre {
 		time.Sleep(500 * time.Microsecond)
 	}
 	pre.selected = wt.VerifPaths()
+	if ch.Bool(1, 3, "second-watcher") {
+		pollersBefore = countPollers()
+		t2 := buildRealTask(&TaskSpec{Name: "wt2", NCmd: 1})
+		wt2, err := watch.NewWatcher("w2", pre.w.Events, abs(pre.w.Include), abs(pre.w.Exclude), t2)
+		if err != nil {
+			pre.err = err
+			return pre
+		}
+		pre.watcher2 = wt2
+		for i := 0; i < 4000 && countPollers() <= pollersBefore; i++ {
+			time.Sleep(500 * time.Microsecond)
+		}
+	}
 	return pre
 }
 
@@ -580,6 +672,11 @@ func (pre *watchPre) cleanup() {
 		os.Chdir(pre.oldwd)
 	}
 	close(pre.stop)
+	if pre.watcher2 != nil && !pre.w2used {
+		// never ran: Close would wait for a Run that does not exist; it releases the inotify
+		// instance first
+		go pre.watcher2.Close()
+	}
 	os.RemoveAll(pre.root)
 }
 
